@@ -1,13 +1,85 @@
 import DarkluaModel.Shared.AstSexp
+import DarkluaModel.Shared.FloatOps
 import DarkluaModel.Rules.EmptyDo
-/-! Line-protocol handlers for property C01: `c01.rule <rule-name-hex> <block>` → block -/
+import DarkluaModel.Rules.EvalC08
+import DarkluaModel.Rules.EvaluatorFloat
+import DarkluaModel.C08.Model
+import DarkluaModel.Rules.UnusedWhile
+import DarkluaModel.Rules.UnusedIfBranch
+import DarkluaModel.Rules.FilterEarlyReturn
+import DarkluaModel.Rules.MethodDef
+import DarkluaModel.Rules.CallParens
+import DarkluaModel.Rules.Trivia
+import DarkluaModel.Rules.ComputeExpression
+import DarkluaModel.Rules.ConvertIndexToField
+import DarkluaModel.Rules.NilDeclaration
+import DarkluaModel.Rules.UnusedVariable
+/-! Line-protocol handlers for property C01:
+* `c01.rule <rule-name-hex> <block>` → transformed block (the evaluator instance is the C08 model
+  over IEEE doubles, `Rules/EvalC08.lean`);
+* `c01.region <rule-name-hex> <block>` → `in` / `out <why>`: the hypothesis `H` of the rule's theorem;
+* `c01.rules` → the modelled rule names. -/
 namespace DarkluaModel.C01
+open DarkluaModel.Rules
+
+/-- the evaluator instance the driver runs the rule models with -/
+def driverApi : EvalApi := c08Api floatOps Evaluator.floatEvalOps
+
+/-- rules that consult the evaluator -/
+def usesEvaluator (name : String) : Bool :=
+  ["remove_unused_while", "remove_unused_if_branch", "compute_expression", "convert_index_to_field",
+   "remove_nil_declaration", "remove_unused_variable"].contains name
 
 /-- the modelled default rules, by darklua rule name -/
 def applyRule (name : String) (b : Block) : Option Block :=
   match name with
   | "remove_empty_do" => some (Rules.EmptyDo.apply b)
+  | "remove_unused_while" => some (Rules.UnusedWhile.apply driverApi b)
+  | "remove_unused_if_branch" => some (Rules.UnusedIfBranch.apply driverApi b)
+  | "filter_after_early_return" => some (Rules.FilterEarlyReturn.apply b)
+  | "remove_method_definition" => some (Rules.MethodDef.apply b)
+  | "remove_function_call_parens" => some (Rules.CallParens.apply b)
+  | "compute_expression" => some (Rules.ComputeExpression.apply driverApi b)
+  | "convert_index_to_field" => some (Rules.ConvertIndexToField.apply driverApi b)
+  | "remove_nil_declaration" => some (Rules.NilDeclaration.apply driverApi b)
+  | "remove_unused_variable" => some (Rules.UnusedVariable.apply driverApi b)
+  | "remove_spaces" => some (Rules.Trivia.removeSpaces b)
+  | "remove_comments" => some (Rules.Trivia.removeComments b)
   | _ => none
+
+def modelled : List String :=
+  ["remove_empty_do", "remove_unused_while", "remove_unused_if_branch", "filter_after_early_return",
+   "remove_method_definition", "remove_function_call_parens", "remove_spaces", "remove_comments", "compute_expression",
+   "convert_index_to_field", "remove_nil_declaration", "remove_unused_variable"]
+
+/-- C08's proved region `H8` on every expression node of the block (F1/F2 numeric equality by
+epsilon, F3 number formatting in `..`, F4 opaque interpolated segments, reference equality of
+fresh tables across effects); `none` = inside -/
+def h8Region (b : Block) : Option String :=
+  let h : Expr → Option String → Expr × Option String := fun e s =>
+    (e, match s with
+      | some w => some w
+      | none => if C08.h8 Evaluator.floatEvalOps e then none else some "H8 of the evaluator (C08: F1-F4)")
+  (Visitor.runDefault ({ expr := h, pref := h, target := h, node := h } : Processor (Option String)) b none).2
+
+/-- the hypothesis `H` of the rule's theorem on this block: `in`, or `out <why>` -/
+def region (name : String) (b : Block) : String :=
+  if usesEvaluator name then
+    match h8Region b with
+    | some why => "out " ++ why
+    | none =>
+      if name == "compute_expression" && Rules.ComputeExpression.outsideH driverApi b then
+        "out F5 and/or folded to a multi-valued operand"
+      else if name == "convert_index_to_field" && Rules.ConvertIndexToField.outsideH driverApi b then
+        "out F6 converted key has side effects"
+      else if name == "remove_nil_declaration" && Rules.NilDeclaration.outsideH driverApi b then
+        "out F24 reordered declaration repeats a name"
+      else if name == "remove_unused_variable" then
+        match Rules.UnusedVariable.outsideH driverApi b with
+        | some why => "out " ++ why
+        | none => "in"
+      else "in"
+  else "in"
 
 def handle (op : String) (args : List String) : String :=
   match op, Sexp.parseArgs args with
@@ -18,7 +90,11 @@ def handle (op : String) (args : List String) : String :=
       | some b' => b'.toSexp.toString
       | none => "unknown-rule"
     | _, _ => "bad-request"
-  | "rules", _ => "remove_empty_do"
+  | "region", some [name, block] =>
+    match nameOfSexp? name, Block.ofSexp? block with
+    | some n, some b => region n b
+    | _, _ => "bad-request"
+  | "rules", _ => " ".intercalate modelled
   | _, _ => "unknown-op " ++ op
 
 end DarkluaModel.C01
